@@ -70,7 +70,7 @@ def standin(prop, bound, target=None, name=None, timeout_s=240):
 
 class Case(object):
   def __init__(self, fn, args=(), kwargs=None, ensures=None, raises=None, loops=None, calls=None,
-               must_return=True, note=None, exc_ensures=None):
+               must_return=True, note=None, exc_ensures=None, lemma_instances=None):
     self.fn = fn
     self.args = list(args)
     self.kwargs = dict(kwargs or {})
@@ -81,15 +81,21 @@ class Case(object):
     self.calls = dict(calls or {})
     self.must_return = must_return
     self.note = note
+    # name of a lemma unit (proved universally on its own) -> lambda res: the instance of its statement that
+    # this proof uses; assumed at every normal exit before the postconditions are checked
+    self.lemma_instances = dict(lemma_instances or {})
 
 
 class LoopSpec(object):
   """inductive invariant for the k-th loop of a function: see pyvc/loops.py"""
-  def __init__(self, invariant, variant=None, havoc=None, name=None):
+  def __init__(self, invariant, variant=None, havoc=None, name=None, axioms=None):
     self.invariant = invariant
     self.variant = variant
     self.havoc = havoc
     self.name = name
+    # instances (at the current iteration) of the recursive definition of ghost functions the invariant
+    # mentions, e.g. W(i+1) == W(i) + word(i); assumed, and listed as a definitional assumption
+    self.axioms = axioms
 
 
 def forall(lo, hi, fn):
